@@ -473,6 +473,31 @@ Proof.
   - simpl. discriminate.
 Qed.
 
+(* ---- More() and Buffered() as documented for encoding/json on top-level streams *)
+
+(* More(): true iff the next non-space byte of the stream exists and is neither ] nor }; nothing is lost by asking *)
+Theorem more_spec : forall st r st',
+  Inv st -> More st = (r, st') ->
+  match drop_ws (pending st) with
+  | [] => r = MFalse /\ err st' = Some (DIo (rfin (rd st)))
+  | c :: R' => r = (if (N.eqb c 93 || N.eqb c 125)%bool then MFalse else MTrue) /\ Inv st' /\ pending st' = c :: R'
+  end.
+Proof.
+  intros st r st' I H. unfold More in H. rewrite (inv_err _ I) in H.
+  destruct (peek (S (rd_fuel (rd st))) None st) as [res st1] eqn:PK.
+  pose proof (peek_spec _ _ _ _ _ I PK (Nat.lt_succ_diag_r _)) as SP.
+  destruct (drop_ws (pending st)) as [|c R'].
+  - destruct SP as (-> & E). inversion H; subst. auto.
+  - destruct SP as (-> & I1 & P1 & _). inversion H; subst. auto.
+Qed.
+
+(* Buffered(): the data remaining in the decoder's buffer - followed by what the reader has not delivered yet it is
+   exactly the unconsumed rest of the stream *)
+Theorem buffered_spec : forall st, BInv st -> exists b, Buffered st = Some b /\ pending st = b ++ rd_bytes (rd st).
+Proof.
+  intros st B. unfold Buffered, BInv in *. apply Nat.leb_le in B. rewrite B. eexists. split; reflexivity.
+Qed.
+
 (* ---- non-vacuity: a stream of an object, a number, a string with an escaped quote and brackets, an array,
    literals, numbers at the very end *)
 Definition ex_stream : bytes :=
